@@ -28,7 +28,7 @@ Print Assumptions C12_shared_default_breaks_isolation.
    no class-level or module-level mutable state, each Solver builds its own components from its own arguments *)
 Theorem C12_source_policy_is_fresh :
   mutable_defaults_written = [] /\ class_level_mutables = [] /\ module_level_mutables = [] /\
-  process_global_state_calls = [] /\ memoised_functions = [] /\ evolvent_module_state = [] /\      (* no process-wide numeric/warning state is set, nothing is memoised *)
+  process_global_state_calls = [] /\ memoised_functions = [] /\ evolvent_module_state = [] /\ configuration_object_writes = [] /\      (* no process-wide numeric/warning state is set, nothing is memoised *)
   solver_components = expected_solver_components /\ sk_SearchData_init = expected_sk_SearchData_init /\
   sk_Method_init = expected_sk_Method_init /\ sk_Process_init = expected_sk_Process_init.
 Proof. repeat split; reflexivity. Qed.
